@@ -1,4 +1,3 @@
-(* WIP *)
 (* Engines comparing observations of the real TopicsIndex with the model (Trie.v) and the specification
    (IndexSpec.v / Match.v).  No proofs in this file.
 
